@@ -96,6 +96,10 @@ def pool_bam(dll):
 def cfg22_ok(dll):
     return (1 <= dll._max_cmdt_packets and dll._max_cmdt_packets <= 255 and dll._minimum_tp_bam_dt_interval > 0
             and implies(not is_none(dll._minimum_tp_rts_cts_dt_interval), dll._minimum_tp_rts_cts_dt_interval > 0)
+            # three different callables: bus, wake-up of the job thread, delivery to the listeners
+            and dll._J1939_22__send_message != dll._J1939_22__job_thread_wakeup
+            and dll._J1939_22__send_message != dll._J1939_22__notify_subscribers
+            and dll._J1939_22__job_thread_wakeup != dll._J1939_22__notify_subscribers
             and lut_ok(dll) and len(pool_rts(dll)) == 8 and len(pool_bam(dll)) == 4
             and owner(dll._LUT_FD_DLC) == dll and owner(pool_rts(dll)) == dll and owner(pool_bam(dll)) == dll
             and owner(dll._cas) == dll
